@@ -739,10 +739,11 @@ def c15_instances(tier):
 
 
 def c14_instances(tier):
-    I = [simple_inst("train_instance", "c14_fb2__b1_1to1", "1, 1, 1, 2, 0.5, 1", "Model::forward / Model::backward on ONE model, two iterations",
+    I = [simple_inst("train_instance", "c14_fb2c__b1_1to1", "1, 1, 1, 2, 0.5, 3", "Model::forward / Model::backward on ONE model, two iterations",
                      "each iteration returns the loss (sum of the cost array) of the current parameters on the CURRENT batch; nothing of the "
                      "previous iteration's output is used",
-                     "dense 1->1 (no activation), mse, batch 1, 2 iterations with fresh symbolic batches, no update in between", unwind=12, timeout=1500, mem_gb=30),
+                     "dense 1->1 (no activation), mse, batch 1, 2 iterations (first batch concrete, second symbolic), no update in between",
+                     unwind=12, timeout=1500, mem_gb=30),
          simple_inst("update_instance", "c14_step__2__2x1__none__r2__m3", "[2], [2, 1], [], 2, 3, 0.5", "GradientDescent::update, two consecutive steps",
                      "the optimizer step of an iteration leaves clean fresh leaves: a second step without new gradients changes nothing",
                      "two parameters, both with gradients in round 1, none in round 2", unwind=14, timeout=900)]
@@ -752,8 +753,10 @@ def c14_instances(tier):
                           "clean fresh leaves afterwards (nothing leaks into the next iteration)",
                           "dense 1->1, mse, batch 1, lr 1/2, 2 iterations; the optimizer is applied to layer.parameters() directly "
                           "(Model::update's flat_map plumbing is NOT covered)", unwind=10, timeout=3000, mem_gb=40),
-              simple_inst("train_instance", "c14_fb2__b2_2to1", "2, 2, 1, 2, 0.5, 1", "Model::forward / Model::backward on ONE model, two iterations",
-                          "as above", "dense 2->1, batch 2", unwind=12, timeout=2400, mem_gb=30)]
+              simple_inst("train_instance", "c14_fb2__b1_1to1", "1, 1, 1, 2, 0.5, 1", "Model::forward / Model::backward on ONE model, two iterations",
+                          "as the quick instance, both batches symbolic", "dense 1->1, batch 1", unwind=12, timeout=3000, mem_gb=30),
+              simple_inst("train_instance", "c14_fb2c__b2_2to1", "2, 2, 1, 2, 0.5, 3", "Model::forward / Model::backward on ONE model, two iterations",
+                          "as above", "dense 2->1, batch 2, first batch concrete", unwind=12, timeout=2400, mem_gb=30)]
     return I
 
 
